@@ -3,7 +3,7 @@ import sys, os, json, time, hashlib, subprocess, shutil, glob, re
 from concurrent.futures import ThreadPoolExecutor
 
 VERIF = os.path.dirname(os.path.dirname(os.path.abspath(__file__)))
-REPO = '/repo'
+REPO = os.environ.get('VERIF_REPO', '/repo')   # override only for evaluating seeded changes in a scratch worktree
 BUILD = os.path.join(VERIF, 'build')
 NCPU = int(os.environ.get('VERIF_JOBS', os.cpu_count() or 4))
 SEED = int(os.environ.get('VERIF_SEED', '0') or 0)
@@ -33,7 +33,7 @@ def build_dir(name, sources, flags):
     key = file_hash(tree_files() + sources) + hashlib.sha256(' '.join(flags).encode()).hexdigest()[:8]
     d = os.path.join(BUILD, name + '-' + key)
     # drop stale builds of the same target (other tree states), keeping disk use bounded
-    for old in glob.glob(os.path.join(BUILD, name + '-*')):
+    for old in ([] if os.environ.get('VERIF_REPO') else glob.glob(os.path.join(BUILD, name + '-*'))):
         if old != d and re.fullmatch(re.escape(name) + r'-[0-9a-f]{24}', os.path.basename(old)):
             shutil.rmtree(old, ignore_errors=True)
     return d
